@@ -3,7 +3,9 @@ package props
 import (
 	"bytes"
 	"context"
+	"encoding/base64"
 	"fmt"
+	"google.golang.org/genproto/googleapis/api/httpbody"
 	"io"
 	"net/http"
 	"os"
@@ -275,7 +277,31 @@ func c15Worlds() []c15World {
 	}}
 	w6.history = []c15Req{f3, restGet, f1, mk("cget-json-plain", wire.ConnectGet, "Pure", "json", "", echo(`{"name":"g4"}`), nil, small)}
 	w6.probes = []c15Req{f1, f3, f2}
-	return []c15World{w1, w2, w3, w4, w5, w6}
+	// world 7: REST clients whose bodies are google.api.HttpBody payloads (the decoded message's
+	// bytes may alias the buffer the body was read into) toward an uncompressed gRPC target,
+	// and HttpBody responses on the way back
+	w7 := c15World{name: "REST HttpBody uploads and downloads (target gRPC/proto, no compression)", cfg: world.Config{Protocols: []vanguard.Protocol{vanguard.ProtocolGRPC}, Codecs: []string{"proto"}, NoCompress: true, MaxMsg: 8000}}
+	hbReply := func(ct string, n int) func(b *world.Backend, r *http.Request) *world.Reply {
+		return func(b *world.Backend, r *http.Request) *world.Reply {
+			hb := MkMsgOf((&httpbody.HttpBody{}).ProtoReflect().Descriptor(), `{"contentType":"`+ct+`","data":"`+base64.StdEncoding.EncodeToString([]byte(strings.Repeat("download!", n)))+`"}`)
+			return world.EchoReply(b.Parsed, [][]byte{Enc(b.Parsed.Codec, hb)}, "", nil)
+		}
+	}
+	restUp := func(name, target, ct string, n int, reply func(b *world.Backend, r *http.Request) *world.Reply) c15Req {
+		return c15Req{name: name, form: wire.REST, close: true, respond: reply, spec: func() *drive.ReqSpec {
+			return &drive.ReqSpec{Method: "POST", Target: target, Header: http.Header{"Content-Type": {ct}}, ContentLength: -2, Body: drive.NewBody([]byte(strings.Repeat("upload-bytes.", n)))}
+		}}
+	}
+	u1 := restUp("rest-raw-upload-300", "/v1/raw", "application/octet-stream", 24, hbReply("image/png", 30))
+	u2 := restUp("rest-raw-upload-3000", "/v1/raw", "text/plain", 240, hbReply("text/plain", 3))
+	u3 := restUp("rest-blob-upload", "/v1/blob/f1?num=2", "application/x-thing", 40, echo(`{"name":"f1","body":{"contentType":"a/b","data":"`+base64.StdEncoding.EncodeToString([]byte(strings.Repeat("blob.", 50)))+`"}}`))
+	u4 := mk("web-json-small", wire.GRPCWeb, "Unary", "json", "", echo(`{"name":"w4","extraText":"`+strings.Repeat("r", 300)+`"}`), nil, small)
+	u5 := c15Req{name: "rest-download-stream", form: wire.REST, close: true, respond: echo(`{"body":{"contentType":"x/y","data":"`+base64.StdEncoding.EncodeToString([]byte(strings.Repeat("part-1.", 40)))+`"}}`, `{"body":{"data":"`+base64.StdEncoding.EncodeToString([]byte(strings.Repeat("part-2.", 4)))+`"}}`), spec: func() *drive.ReqSpec {
+		return &drive.ReqSpec{Method: "GET", Target: "/v1/down/d1", Header: http.Header{}, ContentLength: -1, NoBody: true}
+	}}
+	w7.history = []c15Req{u1, u2, u3, u4, u5}
+	w7.probes = []c15Req{u1, u3, u4, u5}
+	return []c15World{w1, w2, w3, w4, w5, w6, w7}
 }
 
 type protoMessage = proto.Message
